@@ -270,7 +270,7 @@ func init() {
 	vh.Register(&vh.Check{
 		ID: "C14", Level: "model_checking",
 		Technique: "schedule DFS (delay-bounded, statement-granular scheduling points in remote.go / client.go / pending.go / server.go) on two real jsonrpc2.Remote endpoints joined by an in-memory codec whose message delivery is owned by the explorer",
-		Rule:      "11 scenarios (2-3 concurrent callers on one side, callers on both sides, nested call-backs of depth 1-3 in one and both directions, a call cancelled by a racing thread) x every interleaving of callers, both serve loops, spawned request handlers and the canceller within the delay bound (deterministic round-robin scheduler, every skipped thread at any decision costs one unit); each call must return its own token (or context.Canceled), each request handled exactly once with the arrival connection as context service, nothing left blocked except the two read loops; distinct = per-call result vectors + message counts",
+		Rule:      "11 scenarios (2-3 concurrent callers on one side, callers on both sides, nested call-backs of depth 1-3 in one and both directions, a call cancelled by a racing thread) x every interleaving of callers, both serve loops, spawned request handlers and the canceller within the delay bound (deterministic round-robin scheduler, every skipped thread at any decision costs one unit); each call must return its own token (or context.Canceled), each request handled exactly once with the arrival connection as context service, nothing left blocked except the two read loops; distinct = per-call result vectors + message counts; calls of unregistered names among the other calls",
 		Assumptions: []string{
 			"the production pending-table shape (PendingLimit=50/PendingDiscard=10) is explored scaled down to 2/1 as a separate unit",
 			"the in-memory codec delivers messages per direction in FIFO order (like a stream connection)",
